@@ -417,6 +417,7 @@ func (w *W) runPath(prefix []int32) {
 	w.noFork = false
 	w.inHook = false
 	w.stubMode = 0
+	w.allocMute = 0
 	w.notes = w.notes[:0]
 	w.pcSet = map[int32]struct{}{}
 	w.absReset()
